@@ -66,11 +66,55 @@ def check(ctx, F):
         check_requests(ctx, F)
         check_detach(ctx, F)
         check_logger_identity(ctx, F)
+        check_interface_overridden(ctx, F)
     else:
         ctx.note("unit %s compiled without the log interface" % F.label)
     if has_report(F):
         check_report(ctx, F)
         check_activity(ctx, F)
+
+
+REACTION_WRAPPERS = {"deepPreReact", "deepReact", "deepPostReact", "deepQuery"}
+
+
+def check_interface_overridden(ctx, F):
+    """interface mode reports a callback iff the state defines it: in every S_<headed> wrapper the log() overload the call resolves to records
+    when the callback invoked next to it is user code, and is one of the silent (Empty::*) overloads when the callback is the library's inherited
+    default.  (The reaction / query wrappers cast the member pointer to Head::* first and are always reported: DESIGN 12.4, relied on by
+    test_react_order - not judged here.)"""
+    from .. import facts as factsmod
+    lib = factsmod.REPO.rstrip("/") + "/"
+    if any(bb.get("cls") == "S_" and bb["name"] == "log" for bb in F.bodies.values()) is False:
+        return
+    records = {}
+    for fid, b in F.bodies.items():
+        if b.get("cls") == "S_" and b["name"] == "log":
+            records[fid] = any(x.get("k") == "call" and "f" in x and F.fn(x["f"])["name"] == "recordMethod" for x in walk(b.get("body") or {}))
+    if not records:
+        return
+    for fid, b in insts(F, "S_", set(METHOD_OF) - REACTION_WRAPPERS, spec="headed"):
+        cb = CALLBACK_OF[b["name"]]
+        logs = [x["f"] for x in walk(b["body"]) if x.get("k") == "call" and "f" in x and F.fn(x["f"])["name"] == "log" and F.fn(x["f"]).get("cls") == "S_"]
+        cbs = [x["f"] for x in walk(b["body"]) if x.get("k") == "call" and "f" in x and F.fn(x["f"])["name"] == cb]
+        if len(logs) != 1 or len(cbs) != 1 or logs[0] not in records:
+            continue
+        cfn = F.fn(cbs[0])
+        user = not (cfn.get("loc") or "").startswith(lib)
+        if not user:
+            # the library's own default is the one declared in Empty = A_<B_<Args>>; a state built with injections (FSM::StateT<Inj...>) finds the
+            # member in A_<Inj, ...>, whose wide* twin does run the injections' user code: reported, and rightly so
+            ct = F.type(cfn.get("tid")) if cfn.get("tid") is not None else None
+            pack = ((ct or {}).get("args") or [{}])[0].get("pack") if ct and ct.get("args") and isinstance(ct["args"][0], dict) else None
+            first = F.type(pack[0].get("t")) if pack and len(pack) == 1 and isinstance(pack[0], dict) and "t" in pack[0] else None
+            if not ct or ct.get("name") != "A_" or not first or first.get("name") != "B_":
+                continue
+        site = "S_<headed>::%s/interface/%s" % (b["name"], "defined" if user else "inherited")
+        ctx.instance("C16.methods", site, {"function": "S_<headed>::" + b["name"], "callback_defined_by_the_state": user, "log_overload_records": records[logs[0]]})
+        if records[logs[0]] != user:
+            ctx.violation("C16.methods", site, "S_<headed>::%s (%s)" % (b["name"], F.floc(fid)),
+                          "interface logging: %s() is %s, but the log() overload the wrapper resolves to %s" % (
+                              cb, "defined by the state" if user else "the library's inherited default (never written by the user)",
+                              "records it" if records[logs[0]] else "is a silent one"), {})
 
 
 def check_logger_identity(ctx, F):
